@@ -31,9 +31,9 @@ ENV = {'XLA_FLAGS': '--xla_force_host_platform_device_count=8'}
 SHARD_TIMEOUT = {'quick': 900, 'thorough': 3400}
 MIN_HITS = {
     'quick': {'deg:zero-step-client-with-weight': 4, 'fedprox0-on-pmap': 8, 'mon:fedprox0': 60, 'mon:hyp1': 60, 'mon:apfl': 60, 'mon:mimelite': 20, 'mon:proxoracle': 40,
-              'mon:proxaug': 40, 'mon:mime': 40, 'leg:apfl-rounds': 60, 'hit:reg-family-round': 120, 'regularizer-observable': 8},
+              'mon:proxaug': 40, 'mon:mime': 40, 'leg:apfl-rounds': 60, 'hit:reg-family-round': 120, 'regularizer-observable': 8, 'mime-with-regularizer': 10},
     'thorough': {'deg:zero-step-client-with-weight': 60, 'fedprox0-on-pmap': 120, 'mon:fedprox0': 1200, 'mon:hyp1': 1200, 'mon:apfl': 1200, 'mon:mimelite': 400, 'mon:proxoracle': 800,
-                 'mon:proxaug': 800, 'mon:mime': 700, 'leg:apfl-rounds': 1200, 'hit:reg-family-round': 1500, 'regularizer-observable': 100},
+                 'mon:proxaug': 800, 'mon:mime': 700, 'leg:apfl-rounds': 1200, 'hit:reg-family-round': 1500, 'regularizer-observable': 100, 'mime-with-regularizer': 120},
 }
 EXHAUSTIVE = {'quick': False, 'thorough': False}
 TECHNIQUE = ('runtime monitoring: differential execution of the real algorithms against real FedAvg along seeded '
@@ -214,15 +214,25 @@ def run_deg(ctx, fedjax, jax, jnp, h):
     wit = {**wit, 'fedprox_backend': f'pmap[{nd}]'}
   else:
     prox_built = algos.build('fed_prox', proximal_weight=0.0, **common)
+  import contextlib
+  # ... and in those histories the other legs are built on the pmap backend as well (it yields clients in another order
+  # than it was given them; every leg must still pair each result with its own client)
+  others_ctx = (fedjax.for_each_client_backend(fec.ForEachClientPmapBackend(jax.local_devices()[:nd]))
+                if on_pmap else contextlib.nullcontext())
+  with others_ctx:
+    hyp_built = algos.build('hyp_cluster', num_clusters=1, **common)
+    apfl_built = algos.build('apfl', client_coefficient=h['client_coefficient'], **common)
+    mimelite_built = None
+    if h['cspec'][0] == 'sgd' and h['sspec'] == ('sgd', 1.0):
+      mimelite_built = algos.build('mime_lite', cspec=h['cspec'], hp=h['hp'], server_learning_rate=1.0, client_delta_clip_norm=None,
+                                   grads_batch_size=h['grads_batch_size'])
   legs = {
       'fedprox0': Leg(ctx, 'fed_prox', prox_built, init, wit),
-      'hyp1': Leg(ctx, 'hyp_cluster', algos.build('hyp_cluster', num_clusters=1, **common), init, wit),
-      'apfl': Leg(ctx, 'apfl', algos.build('apfl', client_coefficient=h['client_coefficient'], **common), init, wit),
+      'hyp1': Leg(ctx, 'hyp_cluster', hyp_built, init, wit),
+      'apfl': Leg(ctx, 'apfl', apfl_built, init, wit),
   }
-  if h['cspec'][0] == 'sgd' and h['sspec'] == ('sgd', 1.0):
-    legs['mimelite'] = Leg(ctx, 'mime_lite', algos.build(
-        'mime_lite', cspec=h['cspec'], hp=h['hp'], server_learning_rate=1.0, client_delta_clip_norm=None,
-        grads_batch_size=h['grads_batch_size']), init, wit)
+  if mimelite_built is not None:
+    legs['mimelite'] = Leg(ctx, 'mime_lite', mimelite_built, init, wit)
   o64 = toy.FedAvgOracle(init, h['cspec'], h['sspec'], np.float64)
   o32 = toy.FedAvgOracle(init, h['cspec'], h['sspec'], np.float32)
   steps_total, nontrivial, discarded = 0, False, False
@@ -326,8 +336,15 @@ def run_mime(ctx, fedjax, jax, jnp, h):
   dsets = algos.make_datasets(raw)
   wit = witness(h)
   eta, lam = h['cspec'][1], h['lam']
+  # optional L2 regularizer (weight rw): the full-batch step is then taken on mean loss + 0.5*rw*|p|^2
+  rw = float([0.0, 0.0, 0.05, 0.5, 2.0][h['init_seed'] % 5])
+  regularizer = None
+  if rw:
+    regularizer = lambda p: 0.5 * rw * sum(jnp.sum(jnp.square(x)) for x in jax.tree_util.tree_leaves(p))
+    wit = {**wit, 'regularizer_weight': rw}
+    ctx.count('mime-with-regularizer')
   leg = Leg(ctx, 'mime', algos.build('mime', cspec=h['cspec'], hp=h['hp'], server_learning_rate=lam,
-                                     grads_batch_size=h['grads_batch_size']), init, wit)
+                                     grads_batch_size=h['grads_batch_size'], regularizer=regularizer), init, wit)
   p64, p32 = toy.cast(init, np.float64), toy.cast(init, np.float32)
   steps_total, nontrivial, discarded = 0, False, False
   for rnd in range(h['rounds']):
@@ -338,9 +355,9 @@ def run_mime(ctx, fedjax, jax, jnp, h):
     nontrivial = nontrivial or is_nontrivial(cohort, need_two_steps=False)
     full = {'x': np.concatenate([raw[c]['x'] for c in cohort_ids]), 'y': np.concatenate([raw[c]['y'] for c in cohort_ids])}
     g64 = toy.np_grad(p64, full, np.float64)
-    p64 = toy.tmap(lambda p, g: p - np.float64(lam) * np.float64(eta) * g, p64, g64)
+    p64 = toy.tmap(lambda p, g: p - np.float64(lam) * np.float64(eta) * (g + np.float64(rw) * p), p64, g64)
     g32 = toy.np_grad(p32, full, np.float32)
-    p32 = toy.tmap(lambda p, g: (p - np.float32(lam) * np.float32(eta) * g).astype(np.float32), p32, g32)
+    p32 = toy.tmap(lambda p, g: (p - np.float32(lam) * np.float32(eta) * (g + np.float32(rw) * p)).astype(np.float32), p32, g32)
     gap = toy.max_abs_diff(p32, p64)
     scale = max(1.0, toy.max_abs(p64))
     if not toy.all_finite(p64) or gap > 1e-2 * scale:
@@ -352,8 +369,8 @@ def run_mime(ctx, fedjax, jax, jnp, h):
     got = leg.step(clients, w)
     if got is None:
       break
-    compare(ctx, 'mime/params-differ-from-full-batch-step', f'round {rnd}: mime(sgd {eta}, 1 step, server lr {lam}) vs '
-            'p - lam*eta*gradF(p)', got, p64, tol, w)
+    compare(ctx, 'mime/params-differ-from-full-batch-step', f'round {rnd}: mime(sgd {eta}, 1 step, server lr {lam}, L2 weight {rw}) vs '
+            'p - lam*eta*(gradF(p) + rw*p)', got, p64, tol, w)
   klass = ['family=mime'] + (['discarded'] if discarded else [])
   key = ('mime', eta, lam, tuple(h['sizes']), tuple(sorted(h['hp'].items(), key=str)), tuple(map(tuple, h['cohorts'])))
   ctx.case_done(key if (nontrivial and not discarded) else None, sample=wit, klass=klass)
